@@ -166,9 +166,23 @@ package components
 //@   loop 0 invariant only-ports: forall k string :: k in ips ==> $visited[k]
 //@   loop 1 invariant results-kept: p == old(p) && ips != nil
 
+//@ func (*IPSelectorSync).syncRead(p) (ipSetChan)
+//@   props C19
+//@   requires wf: wfInPorts(p.inPorts)
+//@   trusted-frame starts the reading go-routine (syncRead$1, verified below), which only receives on the in-ports and sends on the channel made here
+//@   modifies chan, fresh
+//@   ensures nonnil: ipSetChan != nil
+
+//@ func (*IPSelectorSync).syncRead$1()
+//@   props C19
+//@   requires wf: wfInPorts(p.inPorts) && ipSetChan != nil
+//@   modifies *
+//@   atsend passes-on-only-complete-aligned-tuples[C19]: ok && $v == ips && $ch == ipSetChan
+//@   loop 0 invariant stable: p == old(p) && ipSetChan == old(ipSetChan) && ipSetChan != nil && p.inPorts == old(p.inPorts) && wfInPorts(p.inPorts) && (ok ==> ips != nil && (forall k string :: k in ips ==> validIP(ips[k])))
+
 //@ func (*IPSelectorSync).Run(p)
 //@   props C19
-//@   requires wf: p.outPorts != nil && p.inPorts != nil && (forall k string :: k in p.inPorts ==> k in p.outPorts) && (forall o string :: o in p.outPorts ==> p.outPorts[o] != nil && wfOutPort(p.outPorts[o]))
+//@   requires wf: p.outPorts != nil && wfInPorts(p.inPorts) && (forall o string :: o in p.outPorts ==> p.outPorts[o] != nil && wfOutPort(p.outPorts[o]))
 //@   modifies *
 //@   atcall (*OutPort).Send forwards-only-tuples-whose-members-all-pass[C19]: forall k string :: k in ips ==> selIncludes(ips[k])
 //@   atcall (*OutPort).Send member-goes-to-the-out-port-named-like-its-in-port[C19]: $arg1 == ips[iname] && $arg0 == p.outPorts[iname]
